@@ -43,6 +43,14 @@ def gen(rng, tier, dist):
         add(*gen_message(rng, tags), "tags=3")
     for _ in range(2500 if tier == "quick" else 150000):
         add(*gen_message(rng), "random-tags")
+    # sizes whose length word has a non-zero second or third byte, and long strings
+    for n in BIG_SIZES if tier == "thorough" else rng.sample(BIG_SIZES, 4) + [256]:
+        blob = ("b", n, rand_bytes(rng, n))
+        s = ("s", rand_bytes(rng, n, nonul=True))
+        i = ("4", rng.getrandbits(32))
+        for tags, args in (("b", [blob]), ("bi", [blob, i]), ("sbi", [("s", b"x"), blob, i]),
+                           ("s", [s]), ("si", [s, i]), ("ibs", [i, ("b", n, None), ("s", b"tail")])):
+            add(gen_addr(rng), tags, args, "big-payload")
     return out
 
 def spec_check(case, impl):
